@@ -66,4 +66,24 @@ CHECKS = {
             job("local", "c16", ["TestC16Local"], 6000, 60000, 2, 10),
         ],
     },
+    "C18": {
+        "level": "exploration",
+        "manifest": {
+            "technique": "property-based testing: rapid-generated (row, destination list) pairs against a conversion model written from the Scan documentation (three-valued: exact / must-error / either) plus a metamorphic single-vs-combined scan relation; rapid-generated scan/mutate/reread/close/overwrite histories on SQLite-written files for the copy guarantee",
+            "level_text": "Generated-input search against a reference model of the documented conversions, and generated operation histories with the invariant that scanned values and later reads never change. Sampled; the model's grey zone (inf/nan/hex text, out-of-range float->int, REAL/BLOB timestamps, non-integral->bool) only demands totality.",
+            "level_note": "The conversion model is my reading of the doc comment of Row.Scan (strict decimal/float syntax by regular expression, Go numeric conversions, the two time layouts). Files are written by SQLite 3.40.1.",
+        },
+        "rule": ("conversions: rows of 0-4 values (value grid, random values, a pool of numeric-looking / malformed / time-like texts and the same as blobs) x 0..n+2 destinations over the nine supported "
+                 "kinds, nil and four unsupported kinds; non-trivial = at least one destination and one column. lifetime: page size x rows with blob/text lengths 0..5000 (inline and overflow) x "
+                 "1-8 actions from {overwrite scanned slice, append to scanned slice, reread, rowid read, close, overwrite file, remove file}; non-trivial = a read after a mutation. "
+                 "Distinct = fingerprint of the case spec."),
+        "assumptions": ["system libsqlite3 (3.40.1) writes the files for the lifetime histories"],
+        "min_nontrivial": {"quick": 300, "thorough": 5000},
+        "required_classes": ["conv:t->int64", "conv:missing->", "conv:args=more", "conv:args=fewer", "life:mutate-then-read=true", "life:overflow=true"],
+        "timeout": {"quick": 300, "thorough": 1500},
+        "jobs": [
+            job("conv", "c18", ["TestC18Conv", "TestC18Shortcuts"], 30000, 500000, 1, 4),
+            job("life", "c18", ["TestC18Lifetime"], 400, 5000, 2, 10),
+        ],
+    },
 }
